@@ -101,6 +101,18 @@ for _w in WIDE:
     FAMILY[_w] = type(_w, (State,), {"__annotations__": {"x": int, "tag": str}, "x": 0, "tag": "", "__module__": __name__})
 
 
+def _twin():
+    class Twin(State):
+        x: int = 0
+        tag: str = ""
+
+    return Twin
+
+
+# two DISTINCT state classes with the same module and qualified name (factory-made classes)
+FAMILY["TA"], FAMILY["TB"] = _twin(), _twin()
+
+
 # supply alphabet: lists of type names (two entries of one type = two instances, last wins)
 SUPPLY = [
     [],
